@@ -345,7 +345,14 @@ SPECS["C17"] = {
             "arguments against a recording implementor, plus one wrong-variant probe. non-trivial = compiled with two "
             "same-signature methods or two same-typed arguments (a mis-pairing or reordering would type-check), or a "
             "definition that was rejected; distinct = distinct script text; thorough adds all pairs from 12 method names "
-            "and from 9 argument names",
+            "and from 9 argument names. Argument names are also drawn from the identifiers the expansion itself binds "
+            "or mentions (ctx, context, req, request, resp, response, msg, service, serve, stub, config, transport, "
+            "new_client, client, dispatch, args, new, S, T, Stub), a third of those and a twelfth of all arguments at "
+            "the type tarpc::context::Context, so that a capture of a generated binding would type-check; "
+            "corpus/C17/collisions.txt and one in six special definitions carry `ctx: Context` (must be rejected) or "
+            "its look-alikes (must be accepted and served correctly); Context-typed arguments are scripted as the "
+            "context (n, n), so the recording implementor shows which context it was handed; thorough adds every "
+            "expansion identifier x {a, ctx, context, request} as Context-typed argument pairs",
     "trusted_base": COMMON_TB + [
         "rustc's semantics of the generated items is the small one written in coq/Macro.v (names resolve by text "
         "ignoring r#, arguments by position, first matching arm, inner bindings shadow, the listed duplicate-definition "
@@ -365,7 +372,14 @@ SPECS["C17"] = {
                   "arguments in order and that context, and the caller receives that invocation's result; a response of any "
                   "other variant reaches the fallback arm, never Ok; every collision (same variant name, repeated / ctx / "
                   "self argument, new / serve raw or not) ends in a macro error or a duplicate definition, never in an "
-                  "accepted program. The semantics of the generated items (rustc) is the small one written in coq/Macro.v. "
+                  "accepted program. C17_rejected_or_correct states the dichotomy for every definition at once (rejected, "
+                  "or every enabled method connected to itself for every argument vector, Context-typed arguments "
+                  "included); C17_ctx_argument_rejected: an argument called ctx - of any type - on an active method is "
+                  "rejected (it is the one identifier of the expansion an argument could capture: the server arm's "
+                  "request context), C17_ctx_context_argument_guard shows by computation that this rejection is the only "
+                  "guard (with the client parameter renamed the relay `forward(ctx: Context)` is accepted and the "
+                  "implementor receives the argument as the request's context), C17_expansion_names_harmless the other "
+                  "generated identifiers. The semantics of the generated items (rustc) is the small one written in coq/Macro.v. "
                   "The model is tied to the real macro on every run by translation validation: for each generated "
                   "definition `gen def = items read from rustc's expansion of def` is checked by computation inside Coq, "
                   "the accept/reject verdict and error classes of stable rustc are compared with the model's, the "
@@ -1293,9 +1307,10 @@ RESP_NOTE = (
     "a leaf's value; no hypothesis), C08_chain_yield_written (a yielded request was written into that link with that id "
     "and body; incarnation numbers count yields), C08_chain_start_once (a handler starts only for a yielded request, at "
     "most once), C08_chain_yield_once (an id is yielded at most once per link, untainted runs, chain_no_wrap), "
-    "C01_chain_once_untainted (no head call resolves twice, runs that end untainted). Checked on every real trace "
-    "only, not proved: the producing handler served the caller's own request (rm_body), and 'resolves once' on "
-    "tainted runs.")
+    "C01_chain_once (no head call resolves twice or after it was dropped: every state, no hypothesis; rests on the "
+    "all-states client invariant ClientWaiters.winv_step: permit waiters are distinct calls still acquiring), "
+    "C01_chain_resp_but_body (the five flags together). Checked on every real trace only, not proved: the producing "
+    "handler served the caller's own request (rm_body; C01_chain_resp_of_body reduces the whole monitor to it).")
 for _pid in ("C01", "C08"):
     _sp = SPECS[_pid]
     _sp["parts"] = (_sp.get("parts") or [{}]) + [chain_part(
